@@ -13,11 +13,15 @@ import PromProofs.MergeChunks
     * the transcribed `container/heap` is a priority queue (`goheap_push_spec`, `goheap_pop_spec`);
     * `chain_next_step_spec`  — every `Next` of a started `chainSampleIterator` returns the least pending
       timestamp above `lastT`, taken from an input, and re-establishes the invariant;
-    * `chain_next_spec_partial` — draining a fresh chain with `Next` yields strictly increasing timestamps,
-      every sample from an input, every input timestamp present (partial = stated for runs that end
-      without the model's fuel guard firing; see `chain_next_total_full`).
-  Stated but not proved (kept visible as `…_full : Prop`): Seek scripts, the merged series *set*, and the
-  chunk-level clauses; for these the tie is the correspondence suite and the judge alone.
+    * `chain_next_total`, `chain_next_spec` — draining a fresh chain over ≥ 1 sorted inputs always ends
+      normally (the model's fuel guards never fire) with strictly increasing timestamps, every sample from
+      an input, every input timestamp present (`chain_next_spec_partial` is the conditional form);
+    * `chain_seek_spec` — ANY Next/Seek script is answered like a list iterator over the sorted
+      de-duplicated union of the inputs' timestamps (`chain_seek_spec_full`);
+    * `merge_sets_sorted_unique`, `merge_sets_groups` — the merged series set (`merge_sets_sorted_unique_full`);
+    * `compact_chunks` — the compacting chunk merger (repaired statement).
+  Proved false as literally stated (`…_witness`): `chain_next_total_full` (zero inputs panic) and
+  `compact_chunks_full` (the winner among equal timestamps depends on the order of entry into the heap).
 -/
 namespace Prom.C19
 open Prom.Merge Prom.GoHeap
@@ -95,9 +99,9 @@ example : (Chain.ofLists ([[⟨1, .float, 10⟩, ⟨3, .float, 11⟩], [⟨1, .f
     = some ([⟨1, .float, 20⟩, ⟨2, .hist, 6⟩, ⟨3, .float, 11⟩], [⟨1, .float, 20⟩, ⟨2, .hist, 4⟩, ⟨3, .float, 11⟩]) := by
   decide
 
-/-- Missing for the unconditional `chain_next_spec`: the model's fuel guard never fires, i.e. draining
-    well-formed error-free inputs always ends (`loopFuel` bounds the loop: every round consumes a sample
-    or retires an iterator). Not proved. -/
+/-- The model's fuel guard never fires, i.e. draining well-formed error-free inputs always ends
+    (`loopFuel` bounds the loop: every round consumes a sample or retires an iterator).  As stated (zero
+    inputs allowed) it is false — `chain_next_total_full_witness`; for ≥ 1 input it is `chain_next_total`. -/
 def chain_next_total_full : Prop :=
   ∀ inputs, InputsOK inputs → (Chain.ofLists (inputs.map fun l => (l, false))).drain ≠ none
 
@@ -158,7 +162,8 @@ theorem chain_zero_iterators_panics_witness : ((Chain.mk' []).next).2 = .panic :
 
 /-! ### Seek scripts, the merged series set, chunk mergers -/
 
-/-- expected result of any Next/Seek script on a merged sequence `U` of timestamps -/
+/-- expected result of any Next/Seek script on a merged sequence `U` of timestamps
+    (proved: `chain_seek_spec`) -/
 def chain_seek_spec_full : Prop :=
   ∀ inputs, InputsOK inputs → ∀ (script : List (Option Int)),
     -- every `Seek t` (some t) / `Next` (none) answers as the list iterator over the merged sequence would
@@ -186,7 +191,8 @@ example : ([some 2, none, some 1, none, none].foldl (fun (acc : Chain × List (O
       (Chain.ofLists ([[⟨1, .float, 10⟩, ⟨3, .float, 11⟩], [⟨1, .float, 20⟩, ⟨2, .hist, 6⟩]].map fun l => (l, false)), [])).2
     = [some 2, some 3, some 3, none, none] := by decide
 
-/-- merged series set: label sets strictly increasing and equal to the union of the inputs' label sets -/
+/-- merged series set: label sets strictly increasing and equal to the union of the inputs' label sets
+    (proved: `merge_sets_sorted_unique`) -/
 def merge_sets_sorted_unique_full : Prop :=
   ∀ (sets : List (List (Labels × Nat))),
     (∀ s ∈ sets, s.Pairwise fun a b => Labels.compare a.1 b.1 = .lt) →
@@ -228,7 +234,8 @@ example : (MSet.drainAux (σ := Labels × Nat) (·.1) 5 (MSet.new (·.1)
     = [[([("a", "1")], 0), ([("a", "1")], 2)], [([("a", "2")], 1)]] := by decide
 
 /-- compacted chunks are ordered and disjoint, hold the chain merge of all input samples, and a chunk
-    overlapped only by identical copies comes out once, unchanged -/
+    overlapped only by identical copies comes out once, unchanged.  FALSE as stated
+    (`compact_chunks_full_witness`); the repaired statement is `compact_chunks`. -/
 def compact_chunks_full : Prop :=
   ∀ (series : List (List Chunk)) out, compactAll series = (out, .fin) →
     (out.Pairwise fun a b => a.maxt < b.mint) ∧
